@@ -25,6 +25,7 @@ pub fn prop() -> HistProp {
         thorough: 30000,
         mk: |_, _, _| Box::new(C02 { nontrivial: false }),
         extra: None,
+        many_batches: 0,
     }
 }
 
